@@ -109,12 +109,12 @@ class Report:
 
     # ------------------------------------------------------------------
     def finish(self, level="other", explanation="", trusted_base=None, checker_cmd=None) -> int:
-        # non-vacuity
-        for r in self.rules:
-            if len(r.instances) < r.min_instances:
-                raise AnalysisError(
-                    f"rule {r.id}: {len(r.instances)} instance(s) found, at least {r.min_instances} were confirmed by hand on the pinned tree - anchor vanished or idiom not recognised ({r.text[:80]})"
-                )
+        # non-vacuity (a shortfall is an analysis error unless a violation already explains it)
+        shortfall = [
+            f"rule {r.id}: {len(r.instances)} instance(s) found, at least {r.min_instances} were confirmed by hand on the pinned tree - anchor vanished or idiom not recognised ({r.text[:80]})"
+            for r in self.rules
+            if len(r.instances) < r.min_instances
+        ]
         known = load_known()
         open_keys = {k["key"]: k for k in known.get("open", []) if k.get("property") == self.prop}
         findings = [f for r in self.rules for f in r.findings]
@@ -189,6 +189,8 @@ class Report:
             print(l)
         if new:
             return 1
+        if shortfall:
+            raise AnalysisError("; ".join(shortfall))
         print(f"[{self.prop}] OK: {discharged}/{obligations} obligations over {evaluations} rule instances ({len(matched)} known finding(s))")
         return 0
 
